@@ -317,7 +317,7 @@ def check_key_recipe(prog, rep, rule, en, reader_key):
         rep.unresolved(rule, "key-recipe", "", "writer function or reader key not found")
         return
     rep.functions.add(md.qual)
-    eng = terms.Engine(prog, inline=True, hooks=E.Hooks(["evaluation::mark_duplicates::"]))
+    eng = terms.Engine(prog, inline=True, hooks=E.eval_hooks())
     s = eng.summary(md)
     wkeys = []
     for st in s.all_sites():
